@@ -4,8 +4,11 @@
 // Sub-checks
 //
 //	vbs-enum  exhaustive fault grid on the validating blockstore (small blocks: every byte
-//	          position x flip mask, every truncation, extensions, swaps, foreign bytes)
-//	vbs       generated blocks (all kit hash functions, up to KiB sizes) with generated faults
+//	          position x flip mask, every truncation, extensions, swaps, foreign bytes), over
+//	          the stock datastore-backed blockstore and over a test-double Blockstore
+//	vbs       generated blocks (all kit hash functions, up to KiB sizes) with generated faults;
+//	          backing store = stock blockstore or a test-double Blockstore that labels the
+//	          block it returns in one of four ways
 //	fs-enum   exhaustive fault grid on a small filestore-referenced file (std + mmap reader)
 //	fs        generated files / regions / mutation sequences on the filestore
 //	url       filestore URL references served by an in-process HTTP server on 127.0.0.1
@@ -110,6 +113,107 @@ type BlockSpec struct {
 type VCase struct {
 	Blocks   []BlockSpec `json:"blocks"`
 	NoPrefix bool        `json:"no_prefix,omitempty"`
+	// Inner selects the Blockstore wrapped by the ValidatingBlockstore: "" = the stock
+	// blockstore.NewBlockstore over a map datastore (faults replace the datastore value);
+	// otherwise a test double (fakeStore) whose held bytes are replaced directly and which
+	// labels the block it returns according to the mode (see the label* constants).
+	Inner string `json:"inner,omitempty"`
+}
+
+// The ValidatingBlockstore wraps the Blockstore *interface*; what CID the wrapped store puts
+// on the block it returns is not prescribed by that interface. The modes below are the
+// labelling choices an implementation can make.
+const (
+	labelReq    = "label-req"    // blocks.NewBlockWithCid(held, requested CID)   (what NewBlockstore does)
+	labelSum    = "label-sum"    // CID = requested.Prefix().Sum(held)             (blocks.NewBlockWithPrefix-like: derived from the bytes)
+	labelSha256 = "label-sha256" // blocks.NewBlock(held): CIDv0 sha2-256 of the bytes
+	labelOwn    = "label-own"    // the CID under which the block was first Put, kept next to the bytes
+)
+
+var innerModes = []string{labelReq, labelSum, labelSha256, labelOwn}
+
+type heldBlock struct {
+	data []byte
+	own  cid.Cid
+}
+
+// fakeStore is a minimal in-memory Blockstore keyed by multihash. It never checks anything:
+// Get returns whatever bytes it holds for the requested key, labelled according to label.
+type fakeStore struct {
+	label string
+	held  map[string]*heldBlock
+}
+
+var _ blockstore.Blockstore = (*fakeStore)(nil)
+
+func newFakeStore(label string) *fakeStore {
+	return &fakeStore{label: label, held: map[string]*heldBlock{}}
+}
+
+func (f *fakeStore) Get(_ context.Context, c cid.Cid) (blocks.Block, error) {
+	h, ok := f.held[string(c.Hash())]
+	if !ok {
+		return nil, ipld.ErrNotFound{Cid: c}
+	}
+	data := append([]byte(nil), h.data...)
+	switch f.label {
+	case labelSum:
+		if sc, err := c.Prefix().Sum(data); err == nil {
+			return blocks.NewBlockWithCid(data, sc)
+		}
+	case labelSha256:
+		return blocks.NewBlock(data), nil
+	case labelOwn:
+		return blocks.NewBlockWithCid(data, h.own)
+	}
+	return blocks.NewBlockWithCid(data, c)
+}
+
+func (f *fakeStore) Has(_ context.Context, c cid.Cid) (bool, error) {
+	_, ok := f.held[string(c.Hash())]
+	return ok, nil
+}
+
+func (f *fakeStore) GetSize(_ context.Context, c cid.Cid) (int, error) {
+	h, ok := f.held[string(c.Hash())]
+	if !ok {
+		return -1, ipld.ErrNotFound{Cid: c}
+	}
+	return len(h.data), nil
+}
+
+func (f *fakeStore) Put(_ context.Context, b blocks.Block) error {
+	k := string(b.Cid().Hash())
+	if _, ok := f.held[k]; !ok {
+		f.held[k] = &heldBlock{data: append([]byte(nil), b.RawData()...), own: b.Cid()}
+	}
+	return nil
+}
+
+func (f *fakeStore) PutMany(ctx context.Context, bs []blocks.Block) error {
+	for _, b := range bs {
+		f.Put(ctx, b)
+	}
+	return nil
+}
+
+func (f *fakeStore) DeleteBlock(_ context.Context, c cid.Cid) error {
+	delete(f.held, string(c.Hash()))
+	return nil
+}
+
+func (f *fakeStore) AllKeysChan(context.Context) (<-chan cid.Cid, error) {
+	keys := make([]string, 0, len(f.held))
+	for k := range f.held {
+		keys = append(keys, k)
+	}
+	sort.Strings(keys)
+	ch := make(chan cid.Cid, len(keys))
+	for _, k := range keys {
+		ch <- cid.NewCidV1(cid.Raw, mh.Multihash(k))
+	}
+	close(ch)
+	return ch, nil
 }
 
 // keyRecorder remembers the datastore key of the most recent Put so that the harness can
@@ -176,7 +280,18 @@ func runV(c VCase) kit.Result {
 	if c.NoPrefix {
 		opts = append(opts, blockstore.NoPrefix())
 	}
-	vbs := &blockstore.ValidatingBlockstore{Blockstore: blockstore.NewBlockstore(rec, opts...)}
+	var fake *fakeStore
+	var inner blockstore.Blockstore
+	switch c.Inner {
+	case "":
+		inner = blockstore.NewBlockstore(rec, opts...)
+	case labelReq, labelSum, labelSha256, labelOwn:
+		fake = newFakeStore(c.Inner)
+		inner = fake
+	default:
+		return kit.Result{Classes: []string{"harness:unknown-inner"}}
+	}
+	vbs := &blockstore.ValidatingBlockstore{Blockstore: inner}
 
 	blks := make([]blocks.Block, len(c.Blocks))
 	keyOf := map[string]ds.Key{}    // multihash -> datastore key observed at Put
@@ -189,7 +304,15 @@ func runV(c VCase) kit.Result {
 		if err := vbs.Put(ctx, blks[i]); err != nil {
 			return kit.Fail("Put of honest block %d: %v", i, err)
 		}
-		if rec.last != nil {
+		if fake != nil {
+			if h, held := fake.held[hk]; held && bytes.Equal(h.data, b.Data) {
+				if _, seen := keyOf[hk]; !seen {
+					keyOf[hk] = ds.Key{}
+					stored[hk] = append([]byte(nil), b.Data...)
+					present[hk] = true
+				}
+			}
+		} else if rec.last != nil {
 			if _, seen := keyOf[hk]; !seen {
 				keyOf[hk] = *rec.last
 				stored[hk] = append([]byte(nil), b.Data...)
@@ -207,12 +330,20 @@ func runV(c VCase) kit.Result {
 		switch {
 		case keep:
 		case del:
-			if err := rec.Batching.Delete(ctx, keyOf[hk]); err != nil {
+			if fake != nil {
+				delete(fake.held, hk)
+			} else if err := rec.Batching.Delete(ctx, keyOf[hk]); err != nil {
 				panic(err)
 			}
 			present[hk] = false
 		default:
-			if err := rec.Batching.Put(ctx, keyOf[hk], val); err != nil {
+			if fake != nil {
+				own := blks[i].Cid()
+				if h, held := fake.held[hk]; held {
+					own = h.own
+				}
+				fake.held[hk] = &heldBlock{data: append([]byte(nil), val...), own: own}
+			} else if err := rec.Batching.Put(ctx, keyOf[hk], val); err != nil {
 				panic(err)
 			}
 			stored[hk] = val
@@ -236,19 +367,42 @@ func runV(c VCase) kit.Result {
 		if !wantServed {
 			nonTrivial = true
 		}
+		// With the test double the label of the inner block is the double's choice. Where it
+		// differs from the requested CID although the bytes are intact (alias request under
+		// label-own / label-sum, foreign prefix under label-sha256) the property only says what
+		// may NOT be returned; whether such a block is served, and under which label, gets no
+		// verdict.
+		labelIsReq := true
+		if fake != nil && present[hk] {
+			if ib, ierr := fake.Get(ctx, req); ierr != nil || !ib.Cid().Equals(req) {
+				labelIsReq = false
+			}
+		}
+		innerName := "stock"
+		if fake != nil {
+			innerName = c.Inner
+			addClass(cls, "inner:"+c.Inner)
+			if present[hk] && !bytes.Equal(stored[hk], b.Data) {
+				if labelIsReq {
+					addClass(cls, "corrupt-labelled-as-requested")
+				} else {
+					addClass(cls, "corrupt-labelled-otherwise")
+				}
+			}
+		}
 		got, err := vbs.Get(ctx, req)
 		if err == nil {
 			if got == nil {
 				return kit.Fail("block %d: Get returned (nil, nil)", i)
 			}
 			if !hashesTo(req, got.RawData()) {
-				return kit.Fail("block %d (%s, fault %s): Get(%s) returned %d bytes that do not hash to the requested CID (stored %d bytes, original %d)",
-					i, pfx(b.Prefix), b.Fault.Kind, req, len(got.RawData()), len(stored[hk]), len(b.Data))
+				return kit.Fail("block %d (%s, fault %s, inner %s): Get(%s) returned %d bytes (block labelled %s) that do not hash to the requested CID (stored %d bytes, original %d)",
+					i, pfx(b.Prefix), b.Fault.Kind, innerName, req, len(got.RawData()), got.Cid(), len(stored[hk]), len(b.Data))
 			}
 			if !bytes.Equal(got.RawData(), b.Data) {
 				return kit.Fail("block %d: Get returned bytes different from the original block", i)
 			}
-			if !got.Cid().Equals(req) {
+			if labelIsReq && !got.Cid().Equals(req) {
 				return kit.Fail("block %d: Get(%s) returned a block with CID %s", i, req, got.Cid())
 			}
 			if !wantServed {
@@ -256,8 +410,12 @@ func runV(c VCase) kit.Result {
 			}
 			addClass(cls, "served:"+b.Fault.Kind)
 		} else {
+			if wantServed && !labelIsReq {
+				addClass(cls, "intact-mislabelled:rejected")
+				continue
+			}
 			if wantServed {
-				return kit.Fail("block %d (%s, fault %s): backing value is intact but Get(%s) failed: %v", i, pfx(b.Prefix), b.Fault.Kind, req, err)
+				return kit.Fail("block %d (%s, fault %s, inner %s): backing value is intact but Get(%s) failed: %v", i, pfx(b.Prefix), b.Fault.Kind, innerName, req, err)
 			}
 			switch {
 			case errors.Is(err, blockstore.ErrHashMismatch):
@@ -325,6 +483,15 @@ func genFault(t *rapid.T, n, nblocks int) Fault {
 
 func genV(t *rapid.T) VCase {
 	c := VCase{NoPrefix: rapid.IntRange(0, 4).Draw(t, "noprefix") == 0}
+	// half of the cases wrap the stock blockstore, the other half a test double (the statement
+	// quantifies over "whatever the backing store holds" and the wrapper takes the interface)
+	c.Inner = rapid.SampledFrom([]string{"", "", "", "", labelReq, labelSum, labelSum, labelSha256}).Draw(t, "inner")
+	if c.Inner == labelSha256 && rapid.Bool().Draw(t, "own") {
+		c.Inner = labelOwn
+	}
+	if c.Inner != "" {
+		c.NoPrefix = false
+	}
 	nb := rapid.IntRange(1, 4).Draw(t, "nblocks")
 	max := kit.Scale(4096, 100000)
 	for i := 0; i < nb; i++ {
@@ -358,12 +525,12 @@ func sampleV(c VCase) any {
 		f := b.Fault
 		out = append(out, sb{len(b.Data), b.Prefix, f, b.Alias})
 	}
-	return map[string]any{"no_prefix": c.NoPrefix, "blocks": out}
+	return map[string]any{"no_prefix": c.NoPrefix, "inner": c.Inner, "blocks": out}
 }
 
 var specV = kit.Spec[VCase]{
 	Prop: "C03", Name: "vbs",
-	Rule: "1-4 honest blocks (kit hashes incl. identity, CIDv0/v1, <=4 KiB quick / 100 KB thorough) stored through a ValidatingBlockstore; the backing datastore value of each is then replaced (flip/truncate/extend/prepend/swap/foreign bytes/delete/intact); Get through own or alias CID; non-trivial = at least one backing value differs from the original",
+	Rule: "1-4 honest blocks (kit hashes incl. identity, CIDv0/v1, <=4 KiB quick / 100 KB thorough) stored through a ValidatingBlockstore over (a) the stock datastore-backed blockstore or (b) a test-double Blockstore that labels the block it returns with the requested CID / the CID recomputed from the held bytes under the requested prefix / blocks.NewBlock of the held bytes / the CID of the original Put; the backing value of each block is then replaced (flip/truncate/extend/prepend/swap/foreign bytes/delete/intact); Get through own or alias CID; non-trivial = at least one backing value differs from the original",
 	Quick: 2000, Thorough: 15000,
 	Gen: genV, Run: runV, Sample: sampleV,
 }
@@ -405,7 +572,10 @@ func enumV(yield func(VCase) bool) {
 	}
 	bitMasks := []byte{1, 2, 4, 8, 16, 32, 64, 128, 255}
 	one := func(b BlockSpec, more ...BlockSpec) bool {
-		return yield(VCase{Blocks: append([]BlockSpec{b}, more...)})
+		bl := append([]BlockSpec{b}, more...)
+		// the same fault under the stock blockstore and under a double that derives the label
+		// of the returned block from the held bytes
+		return yield(VCase{Blocks: bl}) && yield(VCase{Blocks: bl, Inner: labelSum})
 	}
 	for _, p := range enumPrefixes {
 		for _, n := range lens {
@@ -468,7 +638,7 @@ func enumV(yield func(VCase) bool) {
 
 var specVEnum = kit.Spec[VCase]{
 	Prop: "C03", Name: "vbs-enum",
-	Rule: "exhaustive grid: 6 CID prefixes (sha2-256 v0/v1, sha2-512, blake2b-256, sha3-256, identity) x block lengths (quick {1,2,3,8,31,32,33,64}, thorough 1..64) x 2 contents x {every byte position x flip masks (9 masks; thorough all 255 for len<=16), every truncation length, extension by 1..8 bytes, 1-byte prepend, adjacent/outer swaps, another block's bytes, delete, intact}; non-trivial = backing value differs from the original",
+	Rule: "exhaustive grid: 2 backing stores (stock datastore-backed blockstore; test-double Blockstore labelling the returned block with the CID recomputed from the held bytes) x 6 CID prefixes (sha2-256 v0/v1, sha2-512, blake2b-256, sha3-256, identity) x block lengths (quick {1,2,3,8,31,32,33,64}, thorough 1..64) x 2 contents x {every byte position x flip masks (9 masks; thorough all 255 for len<=16), every truncation length, extension by 1..8 bytes, 1-byte prepend, adjacent/outer swaps, another block's bytes, delete, intact}; non-trivial = backing value differs from the original",
 	Run:  runV, Sample: sampleV,
 }
 
